@@ -19,9 +19,10 @@ from __future__ import annotations
 
 import ast
 
+from asl.absint import UNKNOWN, AbsEval, Machine
 from asl.cfg import cfg_of
 from asl.loader import AnalysisError, norm, own_nodes
-from .common import name_value
+from .common import make_resolver, name_value
 
 LEVEL = {
     "decided": "C15: (R15.1) the decorator wrapper re-creates the manager inside every call, awaits the decorated "
@@ -107,6 +108,46 @@ def r15_1(ctx) -> None:
               "the documented default for re-entrant managers returns self")
 
 
+class _RecreateOps:
+    """Object model for the generator-based manager: SELF with fields, the constructor
+    arguments FUNC / ARGS / KWDS as opaque values."""
+
+    def attr(self, value, name, node, env):
+        if value == "SELF":
+            if name == "__class__":
+                return ("type", "SELF")
+            return env.get("@f:" + name, UNKNOWN)
+        return UNKNOWN
+
+    def store(self, target, value, env, ev):
+        if isinstance(target, ast.Attribute) and ev.eval(target.value, env) == "SELF":
+            env["@f:" + target.attr] = value
+
+    def call(self, func, args, kwargs, node, env):
+        ev = AbsEval(self)
+        callee = ev.eval(node.func, env)
+        if func == "type" and args == ["SELF"]:
+            return ("type", "SELF")
+        flat = []
+        for a in node.args:
+            if isinstance(a, ast.Starred):
+                v = ev.eval(a.value, env)
+                if isinstance(v, tuple) and not (v and isinstance(v[0], str) and v[0] in ("type", "new", "call")):
+                    flat.extend(v)
+                else:
+                    flat.append(("*", v))
+            else:
+                flat.append(ev.eval(a, env))
+        kws = tuple((k.arg, ev.eval(k.value, env)) if k.arg else ("**", ev.eval(k.value, env)) for k in node.keywords)
+        if callee == ("type", "SELF"):
+            return ("new", callee, tuple(flat), kws)
+        if callee == "FUNC":
+            return ("call", "FUNC", tuple(flat), kws)
+        if func == "cast" and len(args) == 2:
+            return args[1]
+        return UNKNOWN
+
+
 def r15_2(ctx) -> None:
     info = ctx.pkg.cls("contextlib._AsyncGeneratorContextManager")
     init, rec = info.methods.get("__init__"), info.methods.get("_recreate_cm")
@@ -119,25 +160,27 @@ def r15_2(ctx) -> None:
         return
     p = init.param_names()
     ctx.check(len(p) == 4, "R15.2", init, "__init__", "the manager is constructed from (func, args, kwds)")
-    triple_field = None
-    gen_ok = False
-    for s in own_nodes(init.node):
-        if isinstance(s, ast.Assign) and len(s.targets) == 1 and isinstance(s.targets[0], ast.Attribute):
-            if isinstance(s.value, ast.Tuple) and [norm(e) for e in s.value.elts] == p[1:4]:
-                triple_field = s.targets[0].attr
-            if s.targets[0].attr == "gen" and isinstance(s.value, ast.Call) and norm(s.value.func) == p[1] \
-                    and [norm(a) for a in s.value.args] == [f"*{p[2]}"] and \
-                    [(k.arg, norm(k.value)) for k in s.value.keywords] == [(None, p[3])]:
-                gen_ok = True
-    ctx.check(triple_field is not None, "R15.2", init, "__init__", "__init__ stores exactly the (func, args, kwds) it received")
-    ctx.check(gen_ok, "R15.2", init, "__init__", "every instance creates its own generator by calling func(*args, **kwds)")
-    rets = [n for n in own_nodes(rec.node) if isinstance(n, ast.Return)]
-    ok = len(rets) == 1 and isinstance(rets[0].value, ast.Call) and norm(rets[0].value.func) in ("type(self)", "self.__class__") \
-        and len(rets[0].value.args) == 1 and isinstance(rets[0].value.args[0], ast.Starred) \
-        and norm(rets[0].value.args[0].value) == f"self.{triple_field}" and not rets[0].value.keywords
-    ctx.check(ok, "R15.2", rec, rets[0] if rets else "_recreate_cm",
-              "_recreate_cm returns a new instance of its own type from the stored triple (never self)")
-    ctx.check(not any(norm(r.value) == "self" for r in rets), "R15.2", rec, "_recreate_cm", "no path returns self")
+    if len(p) != 4:
+        return
+    ops = _RecreateOps()
+    outs = Machine(cfg_of(init), ops, resolver=make_resolver(ctx, init, ops)).run(
+        {p[0]: "SELF", p[1]: "FUNC", p[2]: "ARGS", p[3]: "KWDS"})
+    outs = [oc for oc in outs if oc.terminal.kind == "exit"]
+    ctx.check(bool(outs), "R15.2", init, "__init__", "construction was evaluated")
+    for oc in outs:
+        fields = {k[3:]: v for k, v in oc.env.items() if k.startswith("@f:")}
+        gens = [f for f, v in fields.items() if v == ("call", "FUNC", (("*", "ARGS"),), (("**", "KWDS"),))]
+        ctx.check(bool(gens), "R15.2", init, "__init__", "every instance creates its own generator by calling func(*args, **kwds)",
+                  witness=str({f: str(v)[:60] for f, v in fields.items()}))
+        env = {k: v for k, v in oc.env.items() if k.startswith("@f:")}
+        env[rec.param_names()[0]] = "SELF"
+        ops2 = _RecreateOps()
+        for oc2 in Machine(cfg_of(rec), ops2, resolver=make_resolver(ctx, rec, ops2)).run(env):
+            got = oc2.returned if oc2.terminal.kind == "exit" else ("raises", oc2.raised)
+            ok = got == ("new", ("type", "SELF"), ("FUNC", "ARGS", "KWDS"), ())
+            ctx.check(ok, "R15.2", rec, "_recreate_cm",
+                      "_recreate_cm returns a new instance of its own type from exactly the (func, args, kwds) that "
+                      "__init__ received (never self)", witness=f"evaluated {got}")
 
 
 def r15_3(ctx) -> None:
